@@ -440,6 +440,7 @@ type c61DState struct {
 	clk      *c61Clock
 	ser      c61Series
 	adds     []c61DAdd // observations since the last Clear, in arrival order
+	path     []string  // the whole history, for messages
 	nAdds    int
 	maxH     int64 // latest instant of the whole history (observation or clock), in half seconds from R
 	seen     bool
@@ -476,13 +477,11 @@ func (d *c61DState) trigger() string {
 			t = "boundary-instant"
 		}
 	}
-	if d.clr {
-		t += "-after-clear"
-	}
 	return t
 }
 
 func (d *c61DState) apply(w *vx.W, op c61Op) bool {
+	d.path = append(d.path, op.String())
 	switch op.K {
 	case 'a':
 		t := c61R + op.H*c61Half
@@ -591,7 +590,7 @@ func (d *c61DState) diff(w *vx.W, clause string, a, b [][]float64, fin int64, wh
 				k := j - d.cfg.n
 				where = fmt.Sprintf("LatestBuckets(%d,3)[%d] = bucket %s..%s", l, k, c61Rel(end-int64(k+1)*sz), c61Rel(end-int64(k)*sz))
 			}
-			w.Failf("C61/"+clause+"/"+d.trigger(), "%s: observations %s (#i is worth 2^i), all series read at clock %s: %s holds %v %s but %v %s", d.cfg.name, d.hist(), c61Rel(fin), where, a[l][j], whatA, b[l][j], whatB)
+			w.Failf("C61/"+clause+"/"+d.trigger(), "%s: history [%s], observations since Clear %s (#i is worth 2^i), all series finally read at clock %s: %s holds %v %s but %v %s", d.cfg.name, strings.Join(d.path, ", "), d.hist(), c61Rel(fin), where, a[l][j], whatA, b[l][j], whatB)
 			return false
 		}
 	}
@@ -714,7 +713,9 @@ func TestVerif_C61(t *testing.T) {
 		dMH := vx.Pick(c, 4, 5)
 		c.Rule(fmt.Sprintf("depth-bounded search (TimeSeries depth %d, MinuteHourSeries depth %d; with the histogram observable MinuteHourSeries one less) over every sequence of AddWithTime(2^i, t) for the i-th observation with t = R ± {0.5 s, 1.5 s, 63.5 s (59.5 s), 64.5 s (60.5 s), 70.5 s, 1 h+0.5 s, 200 d+0.5 s} (R a boundary of every level; mid-bucket instants, in and out of order, far past and far future), Total, {clock := R + 0.5 s|63.5 s|70.5 s|1 h; Latest/LatestBuckets of every level}, Clear, on TimeSeries and MinuteHourSeries with a harness clock, each with Float and with trace's histogram as Observable; after every history: Total, and for every level the whole retained window (one value, one value per bucket, two halves) and the aligned ranges around every bucket holding an observation, compared with the list of (time, value) pairs; non-trivial = history whose final range questions were all asked and compared", dTS, dMH))
 		c.Rule("boundary part: the same search with observation instants exactly on bucket boundaries, Total only")
-		c.Assume("bucket b of a level with resolution s ending at e holds the observations with e-s < t <= e, e = the latest instant seen (observation or clock at Latest) rounded up to s; observation instants exactly on a boundary are used for Total only")
+		c.Rule(fmt.Sprintf("differential part (Float; TimeSeries depth %d, MinuteHourSeries depth %d): every sequence of AddWithTime(2^i, t) with t = R + {0, ±1 s, ±0.5 s, +1.5 s, +10 s (MinuteHourSeries +60 s), -64 s (-60 s), -63.5 s (-59.5 s), +1 h} (instants exactly on bucket boundaries of level 0 / level 1 / every level / the edge of the retained window next to mid-bucket ones), {clock := R + 0.5 s|1 s|2 s|10.5 s (60.5 s)|64 s (60 s); Latest and LatestBuckets}, Total, Clear; after every history the series and twin fresh series that were given the same observations (a) without the interleaved reads / the earlier use and Clear, (b) also in timestamp order, are all read at the same mid-bucket clock instant not earlier than anything seen, and every bucket of every level's retained window (ComputeRange, one value per bucket) and LatestBuckets(level,3) must agree between them; Total is compared with the sum; non-trivial = history that differs from its twin (a read or Clear before a later AddWithTime, or out-of-order timestamps) and was compared completely", dTS, dMH))
+		c.Assume("differential part: no bucket-membership convention for boundary instants is assumed; it only requires that aligned-range answers are a function of the set of (time, value) observations, whatever happened between the AddWithTime calls and in whatever order they arrived")
+		c.Assume("bucket b of a level with resolution s ending at e holds the observations with e-s < t <= e, e = the latest instant seen (observation or clock at Latest) rounded up to s; observation instants exactly on a boundary are used for Total and for the differential part only")
 		c.Assume("ranges whose start or end is not on a bucket boundary of the level that answers them, or that start before that level's retained window, are documented as approximate and are not asked; ScaleBy, Recent and RecentList are not exercised")
 		c.Assume("level resolutions and bucket counts (1 s … 16 weeks x 64; 1 s, 1 min x 60) are taken from the type documentation")
 		for _, hist := range []bool{false, true} {
